@@ -62,9 +62,10 @@ fn obs_extra(c: &Ctx, b: usize, out: &mut Vec<i128>) {
     out.push(c.extra_ctx_edge_count().map(|x| x as i128).unwrap_or(-1));
 }
 
-pub fn run(args: &[i128]) -> Vec<i128> {
+// ctx_id: the id of the Context itself (every test of the crate uses 1); it is unrelated to the ids of the extra contexts
+pub fn run(args: &[i128], ctx_id: u64) -> Vec<i128> {
     let b = args[0] as usize;
-    let mut c: Ctx = Context::with_capacity(1, "ctx", 2);
+    let mut c: Ctx = Context::with_capacity(ctx_id, "ctx", 2);
     let mut count: u64 = 0;
     let mut rets = Vec::new();
     let mut obs = Vec::new();
